@@ -76,6 +76,7 @@ type exchange struct {
 	answered time.Time
 	werr     error
 	tariff   int64 // unit cost carried by a rating answer (identifies it, too)
+	rg       int   // rating group (unit groups)
 }
 
 type subPlan struct {
@@ -94,6 +95,11 @@ type subPlan struct {
 	held      map[string][]*hold // by peer: answers read by the client and not yet dispatched
 	staleRuns int                // held answers dispatched while a later request was waiting
 	costDone  map[int]bool       // updates whose first tariff enquiry has been seen
+	// unit groups: every request reports two rating groups; rating answers carry a tariff per rating group
+	// (7 resp. 3), the exchanges are recorded with their rating group, and the tariff enquiry that opens the
+	// SECOND group's part of an update follows the step's Cost action
+	groups     bool
+	costDoneRG map[[2]int]bool
 }
 
 type holdKey struct{ code, hbh, e2e uint32 }
@@ -289,6 +295,22 @@ func startPeers(rfPort, abmfPort int, pemF, keyF string) error {
 		}
 		p.nRating++
 		ex.tariff = int64(2 + p.nRating%5) // every rating answer carries its own unit cost
+		if p.groups {
+			ex.rg = int(sur.ServiceRating.ServiceIdentifier)
+			ex.tariff = map[int]int64{1: 7, 2: 3}[ex.rg]
+			ex.action = Action{Kind: "prompt"}
+			if ex.role == "cost" && ex.rg == 2 && p.step < len(p.steps) {
+				if p.costDoneRG == nil {
+					p.costDoneRG = map[[2]int]bool{}
+				}
+				if !p.costDoneRG[[2]int{p.step, 2}] {
+					p.costDoneRG[[2]int{p.step, 2}] = true
+					if p.steps[p.step].Cost.Kind != "" {
+						ex.action = p.steps[p.step].Cost
+					}
+				}
+			}
+		}
 		p.exchanges = append(p.exchanges, ex)
 		p.mu.Unlock()
 		p.releaseHeld("rating") // a held earlier answer is dispatched now, before this request is answered
@@ -336,6 +358,7 @@ func startPeers(rfPort, abmfPort int, pemF, keyF string) error {
 		p.nAbmf++
 		ex.k = p.nAbmf
 		ex.value = uint64(1000 + ex.k) // the grant identifies the exchange
+		ex.rg = int(ccr.MultipleServicesCreditControl.RatingGroup)
 		if p.step < len(p.steps) {
 			ex.action = p.steps[p.step].Abmf
 		}
@@ -1006,3 +1029,102 @@ func genBatch(t *rapid.T) Batch {
 }
 
 func TestC19LateAnswers(t *testing.T) { h.Run(t, "C19", "scripts", genBatch, judgeBatch) }
+
+// Unit groups: every request reports two rating groups.  Each group's part of the operation has its own tariff
+// enquiry, reservation and rating answers; what the operation does for a group comes from the answers to that
+// group's own requests - also when the other group's enquiry was answered and this one's was not.
+type groupsCase struct {
+	Steps []Step `json:"steps"` // Cost: the tariff enquiry that opens rating group 2's part of the update
+}
+
+func judgeGroups(c groupsCase) *h.Verdict {
+	v := &h.Verdict{NonTrivial: true}
+	supi := env.NewSupi()
+	p := &subPlan{groups: true, steps: append(append([]Step{}, c.Steps...), Step{Abmf: Action{Kind: "prompt"}, Reserve: Action{Kind: "prompt"}, Cost: Action{Kind: "prompt"}})}
+	plansMu.Lock()
+	plans[supi[5:]] = p
+	plansMu.Unlock()
+	now := time.Now()
+	nf := &models.ChfConvergedChargingNfIdentification{NFName: "smf", NodeFunctionality: "SMF"}
+	const used = 10
+	mk := func(u int32) models.ChfConvergedChargingChargingDataRequest {
+		var muu []models.ChfConvergedChargingMultipleUnitUsage
+		for rg := int32(1); rg <= 2; rg++ {
+			muu = append(muu, models.ChfConvergedChargingMultipleUnitUsage{RatingGroup: rg, RequestedUnit: &models.RequestedUnit{TotalVolume: 100},
+				UsedUnitContainer: []models.ChfConvergedChargingUsedUnitContainer{{QuotaManagementIndicator: models.QuotaManagementIndicator_ONLINE_CHARGING, TotalVolume: u, LocalSequenceNumber: rg}}})
+		}
+		return models.ChfConvergedChargingChargingDataRequest{SubscriberIdentifier: supi, ChargingId: 1, NfConsumerIdentification: nf, InvocationTimeStamp: &now, InvocationSequenceNumber: 1, MultipleUnitUsage: muu}
+	}
+	_, loc, pd := verifapi.Create(mk(0))
+	if pd != nil {
+		return v.Failf("HARNESS-create", "%v", pd)
+	}
+	ref := loc[strings.LastIndex(loc, "/")+1:]
+	tariff := map[int]int64{1: 7, 2: 3}
+	for i, st := range p.steps {
+		p.mu.Lock()
+		p.step = i
+		first := len(p.exchanges)
+		p.mu.Unlock()
+		pre := verifapi.Snapshot(supi)
+		done := make(chan *models.ProblemDetails, 1)
+		go func() { _, pd := verifapi.Update(mk(used), ref); done <- pd }()
+		select {
+		case <-done:
+		case <-time.After(60 * time.Second):
+			return v.Failf("blocked/update-never-returns", "update %d with two rating groups did not return within 60 s; lock held: %v", i, verifapi.Locked(supi))
+		}
+		post := verifapi.Snapshot(supi)
+		p.mu.Lock()
+		mine := append([]*exchange{}, p.exchanges[first:]...)
+		p.mu.Unlock()
+		if st.Cost.Kind != "" && st.Cost.Kind != "prompt" {
+			v.Label("second-group-enquiry:" + st.Cost.Kind)
+		}
+		for rg := 1; rg <= 2; rg++ {
+			// this group's own exchanges
+			var firstCost, abmfEx *exchange
+			for _, ex := range mine {
+				if ex.rg != rg {
+					continue
+				}
+				if ex.peer == "rating" && ex.role == "cost" && firstCost == nil {
+					firstCost = ex
+				}
+				if ex.peer == "abmf" && abmfEx == nil {
+					abmfEx = ex
+				}
+			}
+			t := tariff[rg]
+			if firstCost == nil || withheld(firstCost.action) {
+				t = 1 // without an answer to its own tariff enquiry a group's usage is priced at unit cost 1
+			}
+			delta := post.Reserved[int32(rg)] - pre.Reserved[int32(rg)] + used*t
+			want := int64(0)
+			if abmfEx != nil {
+				want = int64(abmfEx.value)
+			}
+			if delta != want {
+				return v.Failf(fmt.Sprintf("crosstalk/rating-group-%d/foreign-tariff-or-grant", rg), "update %d (steps %+v): rating group %d: reservation %d -> %d; apart from the price of %d used units at its own tariff (%d) it changed by %d, the account exchange of this group granted %d; exchanges of this update: %s",
+					i, c.Steps, rg, pre.Reserved[int32(rg)], post.Reserved[int32(rg)], used, t, delta, want, describe(mine))
+			}
+		}
+	}
+	if verifapi.Locked(supi) {
+		return v.Failf("blocked/lock-held-after-script", "the subscriber's lock is still held after all requests returned")
+	}
+	return v
+}
+
+func TestC19Groups(t *testing.T) {
+	h.Run(t, "C19", "groups", func(t *rapid.T) groupsCase {
+		var c groupsCase
+		n := rapid.IntRange(1, 2).Draw(t, "steps")
+		for i := 0; i < n; i++ {
+			c.Steps = append(c.Steps, Step{Abmf: Action{Kind: "prompt"}, Reserve: Action{Kind: "prompt"}, Cost: genCostAction(t)})
+		}
+		// the pattern is always present once: the second group's enquiry is lost
+		c.Steps = append(c.Steps, Step{Abmf: Action{Kind: "prompt"}, Reserve: Action{Kind: "prompt"}, Cost: Action{Kind: "drop"}})
+		return c
+	}, judgeGroups)
+}
